@@ -7,6 +7,10 @@ package main
 //   C03: after every operation, no account other than the signer lost coins or recorded claims.
 
 import (
+	"crypto/sha256"
+	"encoding/hex"
+	custodykeeper "github.com/KiraCore/sekai/x/custody/keeper"
+	custodytypes "github.com/KiraCore/sekai/x/custody/types"
 	"regexp"
 	"fmt"
 	"os"
@@ -47,6 +51,7 @@ type c34 struct {
 	ls   l2types.MsgServer
 	ss   spendingtypes.MsgServer
 	bms  banktypes.MsgServer
+	cs   custodytypes.MsgServer
 	lab  string
 	// an authorised release: the account that may lose exactly this much in the current operation (a tip it escrowed
 	// for the verifier it named, paid out when that verifier handles the request)
@@ -247,6 +252,9 @@ func c34History(r *Rec, prop string, h int, nBlocks int) {
 	var basketID uint64
 	dapps := []string{}
 	staleAt, staleStage, staleReq := 2+r.Rng.Intn(6), 0, uint64(0)
+	custAt, custStage, custVotes, custHash := 3+r.Rng.Intn(8), 0, 0, ""
+	custMode := []uint64{67, 67, 34, 66, 100, 50}[r.Rng.Intn(6)]
+	e.cs = custodykeeper.NewMsgServerImpl(app.CustodyKeeper, app.CustomGovKeeper, app.BankKeeper)
 	for b := 0; b < nBlocks; b++ {
 		var ops []c34Op
 		if b == 0 {
@@ -331,6 +339,51 @@ func c34History(r *Rec, prop string, h int, nBlocks int) {
 				}})
 			}
 			staleStage++
+		}
+		// a second scripted strand: account 3 puts itself under custody of accounts 0,1,2 (threshold chosen so that the
+		// share of approvals has a fractional part: 2 of 3 at 67 %), requests a custody transfer, and the custodians approve
+		// one per block. Each approval is signed by the custodian only; it may cost the owner the custodian's reward share,
+		// and the transfer itself only with the approval that takes floor(votes*100/3) to the threshold.
+		if b >= custAt && custStage < 6 {
+			owner, to := 3, 5
+			sha := func(x string) string { hh := sha256.Sum256([]byte(x)); return hex.EncodeToString(hh[:]) }
+			switch custStage {
+			case 0:
+				ops = append(ops, c34Op{"custody-create", owner, func(ctx sdk.Context) error {
+					_, err := e.cs.CreateCustody(sdk.WrapSDKContext(ctx), custodytypes.NewMsgCreateCustody(A[owner], custodytypes.CustodySettings{CustodyEnabled: true, CustodyMode: custMode}, "", sha("c34-key"), "", ""))
+					return err
+				}})
+				ops = append(ops, c34Op{"custody-custodians", owner, func(ctx sdk.Context) error {
+					_, err := e.cs.AddToCustodians(sdk.WrapSDKContext(ctx), custodytypes.NewMsgAddToCustodyCustodians(A[owner], []sdk.AccAddress{A[0], A[1], A[2]}, "c34-key", sha("c34-key"), "", ""))
+					return err
+				}})
+			case 1:
+				ops = append(ops, c34Op{"custody-send", owner, func(ctx sdk.Context) error {
+					txb := []byte(fmt.Sprintf("c34-custody-tx-%d", h))
+					hh := sha256.Sum256(txb)
+					custHash = hex.EncodeToString(hh[:])
+					_, err := e.cs.Send(sdk.WrapSDKContext(ctx.WithTxBytes(txb)), custodytypes.NewMsgSend(A[owner], A[to], ukex(500000), "", ukex(3000)))
+					return err
+				}})
+			default:
+				cu := custStage - 2
+				if cu > 2 {
+					break
+				}
+				ops = append(ops, c34Op{"custody-approve", cu, func(ctx sdk.Context) error {
+					allowed := ukex(1000) // this custodian's share of the reward the owner offered
+					if (uint64(custVotes)+1)*100/3 >= custMode {
+						allowed = allowed.Add(ukex(500000)...)
+					}
+					e.allowIdx, e.allowAmt = owner, allowed
+					_, err := e.cs.ApproveTransaction(sdk.WrapSDKContext(ctx), custodytypes.NewMsgApproveCustodyTransaction(A[cu], A[owner], custHash))
+					if err == nil {
+						custVotes++
+					}
+					return err
+				}})
+			}
+			custStage++
 		}
 		for t := 0; t < 1+r.Rng.Intn(4); t++ {
 			s := r.Rng.Intn(nAcc - 1)
